@@ -339,8 +339,8 @@ Definition w_error : M unit := let* v := pop_data in fail EUser (Some v).
 Definition w_foreach_init : M unit :=
   let* c := top_data in
   match value c with
-  | CMap m => push_data (cnat (length m)) ;; push_data (cint 0)
-  | CVec v => push_data (cnat (length v)) ;; push_data (cint 0)
+  | CMap m => (if (length m =? 0)%nat then w_drop else ret tt) ;; push_data (cnat (length m)) ;; push_data (cint 0)
+  | CVec v => (if (length v =? 0)%nat then w_drop else ret tt) ;; push_data (cnat (length v)) ;; push_data (cint 0)
   | other => type_not_supported other
   end.
 Definition w_foreach_next : M unit :=
